@@ -41,18 +41,19 @@ Record quirks := {
   q_inject_drift : bool;       (* inject jsonWalker: element counter only advances on processed elements *)
   q_inject_kind : bool;        (* inject: a non input-object node's ref indexes InputObjectTypeDefinitions *)
   q_inject_reparse : bool;     (* inject: the unquoted content of a JSON string is parsed as JSON text *)
-  q_remap_collision : bool     (* validator: an Upload variable (never renamed) whose name equals a mapper-generated
-                                  name is looked up under the variable that was renamed to it *)
+  q_remap_collision : bool     (* variables mapper: the name of an Upload variable (never renamed) is handed out to another
+                                  variable; the Upload variable is then looked up under that variable's original name *)
 }.
 (* the code before the repairs of /repo recorded as "fixed:" in KNOWN_FINDINGS.txt: every deviation present *)
 Definition old_quirks : quirks := Build_quirks true true true true true true true true true.
 (* THE CODE AS IT IS.  Repaired since (fixed: field-null-uses-field-default, list-element-null-uses-field-default,
-   inject-defaults-index-drift, inject-defaults-enum-ref, inject-defaults-string-reparsed): those flags are off. *)
+   inject-defaults-index-drift, inject-defaults-enum-ref, inject-defaults-string-reparsed, remap-name-collision-upload):
+   those flags are off. *)
 Definition go_quirks : quirks :=
   {| q_int_any_number := true; q_id_any_number := true; q_upload_exempt := true;
      q_field_null_default := false; q_elem_null_default := false;
      q_inject_drift := false; q_inject_kind := false; q_inject_reparse := false;
-     q_remap_collision := true |}.
+     q_remap_collision := false |}.
 Definition no_quirks : quirks := Build_quirks false false false false false false false false false.
 
 (* ------------------------------------------------------------------ type helpers *)
@@ -673,15 +674,29 @@ Fixpoint assoc_name (k : name) (l : list (name * name)) : option name :=
   | [] => None
   | (k', v) :: r => if bytes_eqb k k' then Some v else assoc_name k r
   end.
+(* repaired mapper (cfe9ebe): generateUnusedVariableMappingName also skips the RESERVED names, i.e. the names of the
+   definitions that are not renamed (here: the Upload variables) *)
+Fixpoint next_free (fuel : nat) (reserved : list name) (k : nat) : nat :=
+  match fuel with
+  | O => k
+  | Datatypes.S f => if mem_bytes (letter_name k) reserved then next_free f reserved (Datatypes.S k) else k
+  end.
+Fixpoint assign_names_avoid (reserved : list name) (vds : list vardef) (k : nat) : list (name * vardef) :=
+  match vds with
+  | [] => []
+  | vd :: r => if is_upload_var vd then (vd_name vd, vd) :: assign_names_avoid reserved r k
+               else let k' := next_free (Datatypes.S (length reserved)) reserved k in
+                    (letter_name k', vd) :: assign_names_avoid reserved r (Datatypes.S k')
+  end.
+Definition reserved_names (vds : list vardef) : list name := map vd_name (filter is_upload_var vds).
+
 (* the definitions in the order the validator visits them, each under the name it is looked up
-   (and reported) with *)
+   (and reported) with.  [q_remap_collision] on = the mapper as it was: reserved names were handed out. *)
 Definition remap (q : quirks) (vds : list vardef) : list vardef :=
-  let named := assign_names vds O in
+  let named := if q_remap_collision q then assign_names vds O else assign_names_avoid (reserved_names vds) vds O in
   let mapping := flat_map (fun cv => if is_upload_var (snd cv) then [] else [(fst cv, vd_name (snd cv))]) named in
   map (fun cv =>
-         let eff := if q_remap_collision q || negb (is_upload_var (snd cv))
-                    then match assoc_name (fst cv) mapping with Some o => o | None => fst cv end
-                    else vd_name (snd cv) in
+         let eff := match assoc_name (fst cv) mapping with Some o => o | None => fst cv end in
          {| vd_name := eff; vd_type := vd_type (snd cv); vd_default := vd_default (snd cv); vd_dirs := vd_dirs (snd cv) |})
       (sort_by_name named).
 
